@@ -167,6 +167,10 @@ pub struct Circuit {
     /// v + q < 2^253 is replaced by the bits of v + q) and check every resulting satisfied system
     #[serde(default)]
     pub tamper_bits: bool,
+    /// C14 only: additionally flip every boolean witness that is not part of a bit decomposition, one at
+    /// a time, repair the witnesses defined after it, and judge every assignment that satisfies all rows
+    #[serde(default)]
+    pub tamper_free: bool,
 }
 
 impl Circuit {
